@@ -23,7 +23,8 @@ RULE = ("(a) values of every consensus type (output reference, signature kinds, 
         "trailing data, byte edits), random bytes, and a coverage-guided atheris campaign; oracle: whenever a decoder returns, "
         "re-encoding == the bytes consumed, and the strict reference decoder agrees. (c) id: tx.hash()==sha256d(serialize()), "
         "block.hash()==sha256d(header.serialize()) for objects decoded from bytes, read back from a BlockStore and built in "
-        "memory. non-trivial: (a) value with >=1 list of length >=1 or an extreme field; (b) byte string that DECODES and "
+        "memory, and for transactions the wallet signs from a decoded unsigned one; lists as long as the byte limits allow (1001 "
+        "inputs / outputs / transactions). non-trivial: (a) value with >=1 list of length >=1 or an extreme field; (b) byte string that DECODES and "
         "differs from the valid encoding it was derived from; distinct = digest of the bytes.")
 ASSUMPTIONS = ["messages: direction (a) only (the message header ignores version/reserved bytes by design)",
                "strict reference decoder/encoder in vf/refmodel.py", "atheris campaigns are pinned approximately (-seed, -runs)"]
@@ -60,7 +61,7 @@ def block_s(ll=lens):
 
 def shards(tier):
     out = [{"kind": "values", "i": i} for i in range(4)] + [{"kind": "bytes", "i": i} for i in range(6)]
-    out += [{"kind": "messages", "i": i} for i in range(2)] + [{"kind": "ids", "i": 0}]
+    out += [{"kind": "messages", "i": i} for i in range(2)] + [{"kind": "ids", "i": 0}, {"kind": "biglists"}]
     out += [{"kind": "atheris", "i": i, "target": t} for i, t in enumerate(["block", "transaction", "block_seeded"])]
     return out
 
@@ -388,6 +389,45 @@ def run_messages(res, tier, seed, i):
 
 # ------------------------------------------------------------------ (c) ids three ways
 
+def run_biglists(res, tier, seed):
+    """lists as long as the size limit allows (consensus bounds blocks and transactions in BYTES only): transactions with
+    999 / 1000 / 1001 / 2700 outputs, 1001 inputs, a block with 1001 transactions -- encode, decode, compare, ids"""
+    D, S, b = sk()
+    from skepticoin.networking import messages as M
+    pk = bytes(range(64))
+    cases = []
+    for n in (999, 1000, 1001, 2700):
+        cases.append(("tx_%d_outputs" % n, R.RTx([(R.sha256d(b"in"), 0, ("sig", bytes(64)))], [(1 + i, pk) for i in range(n)])))
+    cases.append(("tx_1001_inputs", R.RTx([(R.sha256d(b"in%d" % i), i, ("sig", bytes(64))) for i in range(1001)], [(5, pk)])))
+    for name, t in cases:
+        res.evaluations += 1
+        res.nontrivial("big:" + name)
+        case = {"type": "Transaction", "big": name}
+        obj = b.to_sk_tx(t)
+        try:
+            enc = obj.serialize()
+            dec = D.Transaction.deserialize(enc)
+            if plain_tx(b, dec) != plain_tx(b, obj) or dec.serialize() != enc or dec.hash() != R.sha256d(enc) or enc != t.raw():
+                res.fail("roundtrip", "roundtrip-changed:Transaction:long-list", "%s: decode(encode(x)) != x" % name, case)
+            m = M.DataMessage(M.DATA_TRANSACTION, obj)
+            if M.Message.deserialize(m.serialize()).serialize() != m.serialize():
+                res.fail("roundtrip", "message-roundtrip-changed:DataMessage:long-list", "%s inside a data message does not round-trip" % name, case)
+        except Exception as e:
+            res.fail("roundtrip", "roundtrip-decode-raised:Transaction:long-list", "%s (%d bytes, within the size limit): encode/decode raised %r" % (name, len(t.raw()), e), case)
+    txs = [R.RTx([(R.NULL32, 0, ("cb", 7, b"big"))], [(1, pk)])] + [R.RTx([(R.sha256d(b"x%d" % i), 0, ("sig", bytes(64)))], [(1, pk)]) for i in range(1000)]
+    blk = R.RBlock(7, R.sha256d(b"p"), R.merkle_root([t.id() for t in txs]), 9, b"\xff" * 32, 1, (R.NULL32,) * 3, txs)
+    res.evaluations += 1
+    res.nontrivial("big:block_1001_transactions")
+    try:
+        enc = b.to_sk_block(blk).serialize()
+        dec = D.Block.deserialize(enc)
+        if dec.serialize() != enc or enc != blk.raw() or dec.hash() != blk.id() or len(dec.transactions) != 1001:
+            res.fail("roundtrip", "roundtrip-changed:Block:long-list", "block with 1001 transactions (%d bytes): decode(encode(x)) != x" % len(enc), {"type": "Block", "big": "1001tx"})
+    except Exception as e:
+        res.fail("roundtrip", "roundtrip-decode-raised:Block:long-list", "block with 1001 transactions (%d bytes, within the size limit): encode/decode raised %r" % (len(blk.raw()), e), {"type": "Block", "big": "1001tx"})
+    res.sample({"long_lists": [c[0] for c in cases] + ["block_1001_transactions"]})
+
+
 def run_ids(res, tier, seed):
     env.import_networking()
     D, S, b = sk()
@@ -410,6 +450,25 @@ def run_ids(res, tier, seed):
         three = {"memory": [b.to_sk_block(x) for x in blks], "bytes": [D.Block.deserialize(x.raw()) for x in blks],
                  "store": [x for x in store.read_blocks_from_disk() if x.height > 0]}
         store.close()
+        # a fourth way an object comes into being: the wallet signs an UNSIGNED transaction that was itself decoded from bytes
+        from skepticoin.wallet import Wallet, sign_transaction
+        from vf.keys import KEYS
+        w_ = Wallet({k.pub: k.priv for k in KEYS}, [k.pub for k in KEYS], {})
+        for x in blks:
+            pnode = r.world.uni.nodes[x.prev]
+            for t in x.txs[1:]:
+                unsigned = R.RTx([(h, i, ("se",)) for (h, i, _s) in t.ins], t.outs)
+                try:
+                    signed = sign_transaction(w_, {D.OutputReference(k[0], k[1]): D.Output(v[0], S.SECP256k1PublicKey(v[1])) for k, v in pnode.utxo.items()},
+                                              D.Transaction.deserialize(unsigned.raw()))
+                except Exception as e:
+                    res.fail("id", "signing-decoded-transaction-raised", "sign_transaction on a transaction decoded from bytes raised %r" % e, {"ids_case": case, "way": "wallet"})
+                    continue
+                res.evaluations += 1
+                res.count("ids_checked:wallet-signed")
+                if signed.hash() != R.sha256d(signed.serialize()):
+                    res.fail("id", "id!=sha256d(canonical):Transaction:wallet-signed", "a transaction signed by the wallet (from a decoded unsigned one) reports an id that is not sha256d of its encoding",
+                             {"ids_case": case, "way": "wallet"})
         for way, lst in three.items():
             for blk in lst:
                 res.evaluations += 1
@@ -494,6 +553,8 @@ def run(shard, tier, seed):
         run_messages(res, tier, seed, shard["i"])
     elif k == "ids":
         run_ids(res, tier, seed)
+    elif k == "biglists":
+        run_biglists(res, tier, seed)
     elif k == "atheris":
         run_atheris(res, tier, seed, shard)
     return res
@@ -504,6 +565,9 @@ def replay(case):
     D, S, b = sk()
     if "ids_case" in case:
         run_ids(res, "quick", 1)
+        return res.failures
+    if "big" in case:
+        run_biglists(res, "quick", 1)
         return res.failures
     if case.get("type") == "CoinbaseData":
         try:
